@@ -22,17 +22,22 @@ ASSUMPTIONS = ['times are passed as k/fs; the effective sample counts are comput
 FS = [1000.0, 25000.0, 44100.0, 48828.125, 195312.5]
 
 
+WINDOWS = ['cosine-squared', 'hann', 'hamming', 'blackman', 'bartlett']
+
+
 def cases(tier, rng):
     quick = tier == 'quick'
     for fs in FS:
         cat = sc.catalogue(fs, rng, rich=not quick)
-        for cfg in cat:
+        extra = sc.catalogue_extra(fs)
+        for ci, cfg in enumerate(cat + extra):
+            is_extra = ci >= len(cat)
             B = sorted(sc.boundaries(cfg, fs))
             pts = sorted({b + d for b in B for d in (-2, -1, 0, 1, 2) if b + d >= 0})
             pairs = [(o, e - o) for o in pts for e in pts if e > o] + [(o, 1) for o in pts]
             if quick:
                 rng.shuffle(pairs)
-                pairs = pairs[:14]
+                pairs = pairs[:7 if is_extra else 14]
             for o, n in pairs:
                 ops = ([['next', o]] if o > 0 else []) + [['next', n]]
                 yield {'k': 'gen', 'fs': fs, 'cfg': cfg, 'ops': ops}
@@ -43,44 +48,258 @@ def cases(tier, rng):
                     u = rng.random()
                     ops.append(['reset'] if u < 0.12 else ['next', rng.choice([1, 2, 3, rng.randint(1, hi)])])
                 yield {'k': 'gen', 'fs': fs, 'cfg': cfg, 'ops': ops}
+            # NumPy-typed / float-typed draw counts, caller writing into the returned arrays, queries, reset, rest
+            for _ in range(2 if quick else 8):
+                yield {'k': 'gen', 'fs': fs, 'cfg': cfg, 'ops': sc.kinds_history(cfg, fs, rng)}
     # fragment functions called directly
     for fs in FS:
-        for _ in range(60 if quick else 1500):
-            start, dur = rng.randint(0, 10), rng.randint(0, 24)
-            rise = rng.choice([None, rng.randint(0, dur // 2)])
-            o = rng.randint(0, start + dur + 4)
-            n = rng.randint(0, start + dur + 6)
-            yield {'k': 'envelope', 'fs': fs, 'window': rng.choice(['cosine-squared', 'hann']), 'start': start, 'dur': dur,
-                   'rise': rise, 'o': o, 'n': n}
-        for _ in range(30 if quick else 600):
+        for i in range(110 if quick else 2500):
+            grid = i % 2 == 0
+            start = rng.randint(0, 10) if grid else rng.choice([rng.uniform(0, 10), rng.randint(0, 9) + 0.5])
+            dur = rng.randint(0, 24) if grid else rng.choice([rng.uniform(0, 24), rng.randint(0, 23) + 0.5])
+            rise = rng.choice([None, rng.randint(0, int(dur) // 2) if grid else rng.uniform(0, dur / 2)])
+            tot = int(start + dur)
+            call = rng.choice(['pos', 'kw', 'cos2'])
+            c = {'k': 'envelope', 'fs': fs, 'window': 'cosine-squared' if call == 'cos2' else rng.choice(WINDOWS),
+                 'start': start, 'dur': dur, 'rise': rise, 'o': rng.randint(0, tot + 4),
+                 'n': rng.choice(['auto', rng.randint(0, tot + 6), rng.randint(0, tot + 6)]), 'call': call}
+            if call == 'kw' and rng.random() < 0.4:
+                c['tr'] = 'sq'
+            if rng.random() < 0.3:
+                c['np'] = True              # NumPy integers for offset / samples
+            if rng.random() < 0.3:
+                c['scr'] = True             # the caller tries to write into the result, then asks again
+            if rng.random() < 0.2:
+                c['int0'] = True            # int 0 instead of 0.0 for zero times
+            if rng.random() < 0.08:
+                c['o'] = rng.choice([10 ** 6, 10 ** 9 + 7, 2 ** 40])    # far past the end
+            yield c
+        # envelope fragments placed at the segment boundaries (==, one below, one above)
+        for (start, dur, rise) in [(3, 12, 4), (2.4, 9.4, 3.3), (0, 8, None), (5, 7, 0)]:
+            elb, d = sc.eff(start, fs), sc.eff(dur, fs)
+            r = d // 2 if rise is None else sc.eff(rise, fs)
+            pts = sorted({b + e for b in (0, elb, elb + r, elb + d - r, elb + d) for e in (-1, 0, 1) if b + e >= 0})
+            prs = [(a, b - a) for a in pts for b in pts if b >= a]
+            rng.shuffle(prs)
+            for (o, n) in prs[:8 if quick else 200]:
+                yield {'k': 'envelope', 'fs': fs, 'window': rng.choice(WINDOWS), 'start': start, 'dur': dur, 'rise': rise,
+                       'o': o, 'n': n, 'call': rng.choice(['pos', 'kw'])}
+        for i in range(60 if quick else 1200):
             D = rng.randint(0, 15)
-            yield {'k': 'samenv', 'fs': fs, 'delay': rng.choice([D / fs, (D + 0.6) / fs]), 'fm': fs / rng.uniform(5, 30),
-                   'depth': rng.choice([1.0, 0.5]), 'o': rng.randint(0, 25), 'n': rng.randint(0, 25)}
-        for _ in range(30 if quick else 600):
-            yield {'k': 'sqwave', 'fs': fs, 'fm': fs / rng.choice([8.0, 10.0, 12.5, 7.25, 16.0, 6.5]),
-                   'depth': rng.choice([1.0, 0.7]), 'duty': rng.choice([0.25, 0.5, 0.4]), 'alpha': rng.choice([0, 0.5]),
-                   'o': rng.randint(0, 60), 'n': rng.randint(1, 40)}
+            delay = rng.choice([D / fs, (D + 0.6) / fs, 0])
+            o = rng.choice([rng.randint(0, 25), max(int(delay * fs) + rng.randint(-1, 1), 0)])
+            c = {'k': 'samenv', 'fs': fs, 'delay': delay, 'fm': rng.choice([fs / rng.uniform(5, 30), max(int(fs // 9), 1)]),
+                 'depth': rng.choice([1.0, 0.5, 1, 0, 0.0]), 'o': o, 'n': rng.randint(0, 25),
+                 'mode': rng.choice(['eq', 'eq', 'noeq', 'direct'])}
+            if c['mode'] == 'direct':       # _sam_envelope with explicit phase / power
+                c['eq_phase'], c['eq_power'] = rng.choice([(0.7, 1.3), (3.141592653589793, 0.75), (0, 1)])
+            if rng.random() < 0.3:
+                c['np'] = True
+            if rng.random() < 0.3:
+                c['scr'] = True
+            yield c
+        for _ in range(60 if quick else 1200):
+            c = {'k': 'sqwave', 'fs': fs, 'fm': fs / rng.choice([8.0, 10.0, 12.5, 7.25, 16.0, 6.5]),
+                 'depth': rng.choice([1.0, 0.7, 1]), 'duty': rng.choice([0.25, 0.5, 0.4, 0.4, 1.0, 0.0]),
+                 'alpha': rng.choice([None, 0, 0.5, 1.0]), 'o': rng.randint(0, 60), 'n': rng.randint(0, 40)}
+            if rng.random() < 0.3:
+                c['np'] = True
+            yield c
+    # one-shot functions and their factory twins: tone / sam_tone fragments (offset, samples) and the seconds-based
+    # `duration` variant; the noise functions; ramped_tone
+    for fs in FS:
+        ifreq = max(int(fs // 8), 1)
+        tones = [{'t': 'tone', 'f': fs / 8.0, 'level': 1.5, 'phase': 0.3}, {'t': 'tone', 'f': ifreq, 'level': 2, 'pol': -1},
+                 {'t': 'tone', 'f': fs / 11.3, 'level': 0.8, 'cal': True}]
+        sams = [{'t': 'samtone', 'fc': fs / 6.0, 'fm': fs / 40.0, 'level': 1.0},
+                {'t': 'samtone', 'fc': fs / 6.0, 'fm': fs / 40.0, 'level': 1.0, 'phase': 0.4, 'phase_lb': 0.2, 'phase_ub': 0.1,
+                 'pol': -1, 'eq_power': False},
+                {'t': 'samtone', 'fc': int(fs // 6), 'fm': int(fs // 40), 'level': 1, 'cal': True, 'equalize': False}]
+        for cfg in tones + sams:
+            for _ in range(4 if quick else 40):
+                c = {'k': 'fn', 'fs': fs, 'cfg': cfg, 'mode': 'frag', 'o': rng.randint(0, 30), 'n': rng.randint(0, 20)}
+                if rng.random() < 0.4:
+                    c['np'] = True
+                yield c
+            for dur in [0, 1, 7, 7.4, 7.5, 7.6, 8.5, rng.uniform(0, 30)]:
+                yield {'k': 'fn', 'fs': fs, 'cfg': cfg, 'mode': 'dur', 'dur': dur}
+        bl = {'t': 'blnoise', 'level': 1.0, 'fl': fs / 10, 'fh': fs / 5}
+        for cfg in [{'t': 'bbnoise', 'level': 1.0}, {'t': 'bbnoise', 'seed': 5, 'level': 0.7, 'pol': -1, 'cal': True},
+                    {'t': 'bbnoise', 'seed': 0, 'level': 0.7},
+                    dict(bl, seed=1, deffn=True), dict(bl, seed=4, pol=-1), dict(bl, seed=0),
+                    {'t': 'firnoise', 'seed': 0, 'level': 1.0, 'fl': fs / 10, 'fh': fs / 5, 'pol': -1, 'window': 'hamming',
+                     'equalize': True},
+                    {'t': 'firnoise', 'seed': 3, 'level': 1.0, 'fl': fs / 10, 'fh': fs / 5, 'equalize': False},
+                    {'t': 'shaped', 'seed': 0, 'level': 1.0, 'pol': -1, 'window': 'hamming'},
+                    {'t': 'shaped', 'seed': 8, 'level': 1.0},
+                    {'t': 'notch', 'f': fs / 8.0, 'q': 1.33, 'in': {'t': 'bbnoise', 'seed': 11, 'level': 1.0}},
+                    {'t': 'notch', 'f': ifreq, 'q': 2, 'in': {'t': 'bbnoise', 'seed': 0, 'level': 0.5, 'pol': -1}},
+                    {'t': 'env', 'window': 'cosine-squared', 'start': 0, 'dur': 12.4, 'rise': 2.7, 'in': tones[0], 'deffn': True},
+                    {'t': 'env', 'window': 'hann', 'start': 0, 'dur': 9, 'rise': None, 'in': tones[0]},
+                    {'t': 'env', 'window': 'blackman', 'start': 0, 'dur': 10, 'rise': 0, 'int0': True, 'in': tones[2]},
+                    {'t': 'env', 'window': 'hann', 'start': 0, 'dur': 9, 'rise': 5, 'in': tones[0]}]:
+            durs = [7, 7.6] if 'dur' not in cfg else [cfg['dur']]
+            for dur in durs:
+                yield {'k': 'fn', 'fs': fs, 'cfg': cfg, 'mode': 'dur', 'dur': dur}
+    # WavSequenceFactory (a queue of wav files behind the generator interface): judged by the oracle only
+    for fs in [1000.0, 1000, 44100.0]:
+        for chunks in [[3, 4], [10, 1, 20], [40]]:
+            yield {'k': 'wavseq', 'fs': fs, 'chunks': chunks}
+
+
+def _ival(v, case):
+    return np.int64(v) if case.get('np') else v
+
+
+def _env_call(case, o, n):
+    """stim.envelope / cos2envelope for the fragment (o, n) in the call style the case asks for"""
+    from psiaudio import stim
+    fs = case['fs']
+    cfg = {'start': case['start'], 'dur': case['dur'], 'rise': case['rise'], 'int0': case.get('int0')}
+    start, dur, rise = (sc.tsec(cfg, k, fs) for k in ('start', 'dur', 'rise'))
+    o = _ival(o, case)
+    n = n if n == 'auto' else _ival(n, case)
+    call = case.get('call', 'pos')
+    if call == 'cos2':
+        return stim.cos2envelope(fs, dur, rise, offset=o, start_time=start, samples=n)
+    if call == 'kw':
+        kw = {'transform': sc.TRANSFORMS[case['tr']]} if case.get('tr') else {}
+        return stim.envelope(window=case['window'], fs=fs, duration=dur, rise_time=rise, offset=o, start_time=start,
+                             samples=n, **kw)
+    if n == 'auto':
+        return stim.envelope(case['window'], fs, dur, rise, o, start)
+    return stim.envelope(case['window'], fs, dur, rise, o, start, n)
+
+
+def _sam_call(case, o, n):
+    from psiaudio import stim
+    fs = case['fs']
+    o, n = _ival(o, case), _ival(n, case)
+    mode = case.get('mode', 'eq')
+    if mode == 'direct':
+        return stim._sam_envelope(o, n, fs, case['depth'], case['fm'], case['delay'], case['eq_phase'], case['eq_power'])
+    return stim.sam_envelope(o, n, fs, case['depth'], case['fm'], case['delay'], mode == 'eq')
+
+
+def _sq_call(case, o, n):
+    from psiaudio import stim
+    o, n = _ival(o, case), _ival(n, case)
+    a = () if case.get('alpha') is None else (case['alpha'],)
+    return stim.square_wave(case['fs'], o, n, case['depth'], case['fm'], case['duty'], *a)
+
+
+def _twice(case, call):
+    """call; optionally let the caller write into the result and call again (a memoised result must not change)"""
+    e = call()
+    first = [float(v) for v in e]
+    if not case.get('scr'):
+        return ['ok', first]
+    sc.scribble(e)
+    return ['ok', first, [float(v) for v in call()]]
+
+
+def _fn_call(case):
+    """the one-shot function twin of the factory sc.mk(case['cfg']) builds"""
+    from psiaudio import stim
+    fs, cfg = case['fs'], case['cfg']
+    t = cfg['t']
+    if case['mode'] == 'frag':
+        o, n = _ival(case['o'], case), _ival(case['n'], case)
+        sel = [dict(samples=o), dict(samples=n, offset=o)]
+    else:
+        sel = [dict(duration=case['dur'] / fs)]
+    out = []
+    for kw in sel:
+        if t == 'tone':
+            a = stim.tone(fs, cfg['f'], cfg['level'], **sc._kw(cfg, {'phase': 'phase', 'pol': 'polarity'}), **kw)
+        elif t == 'samtone':
+            a = stim.sam_tone(fs, cfg['fc'], cfg['fm'], cfg['level'],
+                              **sc._kw(cfg, {'phase': 'phase', 'phase_lb': 'phase_lb', 'phase_ub': 'phase_ub', 'pol': 'polarity',
+                                             'eq_power': 'eq_power', 'equalize': 'equalize'}), **kw)
+        elif t == 'bbnoise':
+            a = stim.broadband_noise(fs, cfg['level'], **sc._kw(cfg, {'seed': 'seed', 'pol': 'polarity'}), **kw)
+        elif t == 'blnoise':
+            if cfg.get('deffn'):        # the function's own defaults (roll-off 1, 1 / 80 dB, seed 1)
+                a = stim.bandlimited_noise(fs, cfg['level'], cfg['fl'], cfg['fh'], **kw)
+            else:
+                a = stim.bandlimited_noise(fs, cfg['level'], cfg['fl'], cfg['fh'], filter_rolloff=1, passband_attenuation=1,
+                                           stopband_attenuation=80, seed=cfg['seed'], **sc._kw(cfg, {'pol': 'polarity'}), **kw)
+        elif t == 'firnoise':
+            from psiaudio.calibration import FlatCalibration
+            a = stim.bandlimited_fir_noise(fs, cfg['level'], cfg['fl'], cfg['fh'], ntaps=cfg.get('ntaps', 101), seed=cfg['seed'],
+                                           calibration=FlatCalibration.unity(), equalize=cfg.get('equalize', False),
+                                           **sc._kw(cfg, {'pol': 'polarity', 'window': 'window'}), **kw)
+        elif t == 'shaped':
+            a = stim.shaped_noise(fs, cfg['level'], sc.shaped_gains(fs), ntaps=cfg.get('ntaps', 101), seed=cfg['seed'],
+                                  **sc._kw(cfg, {'pol': 'polarity', 'window': 'window'}), **kw)
+        elif t == 'notch':
+            c = cfg['in']
+            a = stim.notch_noise(fs, cfg['f'], cfg['q'], c['level'], **sc._kw(c, {'seed': 'seed', 'pol': 'polarity'}), **kw)
+        elif t == 'env':
+            c = cfg['in']
+            if cfg.get('deffn'):        # default window, rise given positionally
+                a = stim.ramped_tone(fs, c['f'], c['level'], kw['duration'], sc.tsec(cfg, 'rise', fs),
+                                     **sc._kw(c, {'phase': 'phase'}))
+            else:
+                a = stim.ramped_tone(fs, c['f'], c['level'], kw['duration'], rise_time=sc.tsec(cfg, 'rise', fs),
+                                     window=cfg['window'], **sc._kw(c, {'phase': 'phase'}))
+        else:
+            raise KeyError(t)
+        out.append(['next', [float(v) for v in np.asarray(a, dtype=float)]])
+    return out
+
+
+def _fn_ops(case):
+    if case['mode'] == 'frag':
+        return [['next', case['o']], ['next', case['n']]]
+    return [['next', sc.eff(case['dur'], case['fs'])]]
+
+
+def _wavseq_dir():
+    import os
+    from scipy.io import wavfile
+    d = os.path.join(os.path.dirname(os.path.dirname(os.path.abspath(__file__))), 'work', 'wavseq')
+    if not os.path.isdir(d):
+        os.makedirs(d, exist_ok=True)
+        for i, n in enumerate([7, 11, 5]):
+            wavfile.write(os.path.join(d, f's{i}.wav'), 1000, (np.arange(n) * 100 + 1000 * i + 50).astype(np.int16))
+    return d
+
+
+def _wavseq(fs, chunks):
+    from psiaudio import stim
+    try:
+        f = stim.WavSequenceFactory(fs, _wavseq_dir())
+        return ['ok', [[float(v) for v in f.next(n)] for n in chunks]]
+    except TypeError as e:
+        # on the unchanged tree the class cannot produce a single sample (reported; see oracle)
+        return ['raise', 'TypeError']
 
 
 def impl(case):
-    from psiaudio import stim
     fs = case['fs']
     k = case['k']
     if k == 'gen':
         return sc.run_impl(case['cfg'], fs, case['ops'])
     if k == 'envelope':
-        rise = None if case['rise'] is None else case['rise'] / fs
         try:
-            e = stim.envelope(case['window'], fs, case['dur'] / fs, rise, case['o'], case['start'] / fs, case['n'])
-            return ['ok', [float(v) for v in e]]
+            return _twice(case, lambda: _env_call(case, case['o'], case['n']))
         except ValueError:
             return ['raise']
     if k == 'samenv':
-        e = stim.sam_envelope(case['o'], case['n'], fs, case['depth'], case['fm'], case['delay'], True)
-        return ['ok', [float(v) for v in e]]
+        try:
+            return _twice(case, lambda: _sam_call(case, case['o'], case['n']))
+        except ZeroDivisionError:
+            return ['raise']
     if k == 'sqwave':
-        e = stim.square_wave(fs, case['o'], case['n'], case['depth'], case['fm'], case['duty'], case['alpha'])
-        return ['ok', [float(v) for v in e]]
+        return _twice(case, lambda: _sq_call(case, case['o'], case['n']))
+    if k == 'fn':
+        try:
+            return _fn_call(case)
+        except ValueError:
+            return [['raise', 'ValueError']]
+    if k == 'wavseq':
+        return _wavseq(fs, case['chunks'])
     raise KeyError(k)
 
 
@@ -91,25 +310,32 @@ def _frag_params(case):
     return sc.eff(case['start'], fs), dur, rise
 
 
+def _env_n(case):
+    if case['n'] == 'auto':
+        elb, dur, _ = _frag_params(case)
+        return elb + dur
+    return case['n']
+
+
 def expr(case, res):
     """model outputs ++ [1/0]: the last element is the executable form of the Props/C01.v statement on this case"""
+    from vlib import zlist
     fs = case['fs']
     k = case['k']
-    if k == 'gen':
+    if k in ('gen', 'fn'):
+        ops = case['ops'] if k == 'gen' else _fn_ops(case)
         reg = sc.Registry(fs)
         g = sc.coq_gen(case['cfg'], reg)
         # chunk list of the first reset-free segment, for the spec test
         cs = []
-        for o in case['ops']:
-            if o[0] == 'reset':
+        for o in ops:
+            if o[0] != 'next':
                 break
-            if o[0] == 'next':
-                cs.append(o[1])
-        from vlib import zlist
-        return f"run_gen {g} {sc.coq_ops(case['ops'])} ++ spec_ok_Z {g} {zlist(cs)}"
+            cs.append(o[1])
+        return f"run_gen {g} {sc.coq_ops(ops)} ++ spec_ok_Z {g} {zlist(cs)}"
     if k == 'envelope':
         elb, dur, rise = _frag_params(case)
-        a = f"{zlit(elb)} {zlit(dur)} {zlit(rise)} {zlit(case['o'])} {zlit(case['n'])}"
+        a = f"{zlit(elb)} {zlit(dur)} {zlit(rise)} {zlit(case['o'])} {zlit(_env_n(case))}"
         return f"run_envelope {a} ++ frag_ok_envelope {a}"
     if k == 'samenv':
         a = f"{zlit(int(case['delay'] * fs))} {zlit(case['o'])} {zlit(case['n'])}"
@@ -119,112 +345,170 @@ def expr(case, res):
         duty = int(round(case['duty'] * P))
         a = f"{sc.qlit(Fraction(P))} {zlit(duty)} {zlit(case['o'])} {zlit(case['n'])}"
         return f"run_sqenv {a} ++ frag_ok_sqenv {a}"
+    if k == 'wavseq':
+        return f"spec_ok_Z (GCar 1) {zlist(case['chunks'])}"
 
 
 def _frag_eval(case, factors):
     """evaluate recipes of the directly-called fragment functions (node id 0)"""
-    from psiaudio import stim
-    from scipy import signal
     fs = case['fs']
     k = case['k']
-    reg = sc.Registry(fs)
     if k == 'envelope':
         _, _, rise = _frag_params(case)
-        reg.nodes[0] = {'kind': 'ramp', 'window': case['window'], 'rise': rise}
+        info = {'kind': 'ramp', 'window': case['window'], 'rise': rise, 'transform': case.get('tr')}
     elif k == 'samenv':
-        reg.nodes[0] = {'kind': 'sam', 'cfg': {'depth': case['depth'], 'fm': case['fm'], 'delay': case['delay']}}
+        c = {'depth': case['depth'], 'fm': case['fm'], 'delay': case['delay']}
+        if case.get('mode') == 'direct':
+            c.update(eq_phase=case['eq_phase'], eq_power=case['eq_power'])
+        info = {'kind': 'sam', 'cfg': c}
     else:
         P = fs / case['fm']
-        reg.nodes[0] = {'kind': 'sqenv', 'duty': int(round(case['duty'] * P)),
-                        'cfg': {'depth': case['depth'], 'alpha': case['alpha']}}
-    ev = sc.Evaluator(reg, 0)
-    return [ev.factor(*f) for f in factors]
+        info = {'kind': 'sqenv', 'duty': int(round(case['duty'] * P)),
+                'cfg': {'depth': case['depth'], 'alpha': case['alpha'] or 0}}
+    return sc.frag_values(fs, info, factors)
 
 
 def agree(case, res, mo):
     if mo[-1] != 1:
         return 'the executable form of the C01 statement (spec_ok / frag_ok) is false on this case'
     mo = mo[:-1]
-    if case['k'] == 'gen':
+    k = case['k']
+    if k in ('gen', 'fn'):
+        ops = case['ops'] if k == 'gen' else _fn_ops(case)
         reg = sc.Registry(case['fs'])
         sc.coq_gen(case['cfg'], reg)
-        return sc.compare(case['cfg'], case['fs'], reg, case['ops'], res, mo)
-    if case['k'] == 'envelope':
+        if k == 'fn' and res and res[0][0] == 'raise':
+            # ramped_tone rejects a rise longer than half the duration where the factory raises on its first draw
+            dec = sc.decode(mo)
+            return None if dec and dec[0][0] == 'raise' else 'the function raised ValueError, the model of its factory twin does not'
+        return sc.compare(case['cfg'], case['fs'], reg, ops, res, mo)
+    if k == 'wavseq':
+        return None         # not modelled: oracle only
+    if k == 'samenv' and case.get('mode') == 'noeq':
+        # sam_envelope(equalize=False) divides by its eq_power of 0 for every (offset, samples): no envelope to model;
+        # the oracle checks that this does not depend on the fragment
+        return None
+    if k == 'envelope':
         if mo[0] == 2:
             return None if res[0] == 'raise' else 'model raises ValueError, implementation returned an envelope'
         if res[0] == 'raise':
             return 'implementation raised ValueError, model returned an envelope'
         mo = mo[1:]
-    n = mo[0]
-    factors = [tuple(mo[1 + 3 * i: 4 + 3 * i]) for i in range(n)]
+    if res[0] == 'raise':
+        return 'implementation raised, model returned an envelope'
+    factors = sc.parse_factors(mo)
     want = _frag_eval(case, factors)
-    got = res[1]
-    if len(got) != len(want):
-        return f'implementation returned {len(got)} samples, model {len(want)}'
-    for j, (g, w) in enumerate(zip(got, want)):
-        if g != w:
-            return f'sample {j}: implementation {g!r}, model recipe {factors[j]} = {w!r}'
+    for which, got in enumerate(res[1:]):
+        if len(got) != len(want):
+            return f'implementation returned {len(got)} samples, model {len(want)}'
+        for j, (g, w) in enumerate(zip(got, want)):
+            if g != w:
+                return (f'sample {j}{" of the second, identical call" if which else ""}: implementation {g!r}, '
+                        f'model recipe {factors[j]} = {w!r}')
     return None
 
 
 def nontrivial(case, res):
-    if case['k'] != 'gen':
-        return case['n'] > 0 and case['o'] > 0
-    nexts = [o for o in case['ops'] if o[0] == 'next']
+    k = case['k']
+    if k == 'wavseq':
+        return res[0] == 'ok' and len(case['chunks']) >= 2
+    if k == 'fn':
+        return case['mode'] == 'dur' or (case['n'] > 0 and case['o'] > 0)
+    if k != 'gen':
+        return res[0] == 'ok' and _n_of(case) > 0 and case['o'] > 0
+    nexts = [o for o in case['ops'] if o[0] in ('next', 'rest')]
     return len(nexts) >= 2 and (case['cfg']['t'] not in ('tone', 'silence', 'samtone'))
+
+
+def _n_of(case):
+    return _env_n(case) if case['k'] == 'envelope' else case['n']
+
+
+def _gen_oracle(cfg, fs, ops, res):
+    """history output == one fresh single request"""
+    if res and res[0][0] == 'ctor-raise':
+        return None
+    # split the history at resets; each segment must equal a prefix of one fresh one-shot request
+    segs, cur = [], []
+    for o, r in zip(ops, res):
+        if o[0] == 'reset':
+            segs.append(cur)
+            cur = []
+        elif o[0] in ('next', 'rest'):
+            if r[0] == 'raise':
+                if o[0] == 'rest':
+                    continue    # get_samples_remaining() of an infinite stimulus
+                return None     # rise time too long etc.: nothing to compare
+            cur.extend(r[1])
+    segs.append(cur)
+    n = max(len(s) for s in segs)
+    if n == 0:
+        return None
+    one = np.asarray(sc.mk(cfg, fs).next(n), dtype=float)
+    tol = 1e-12 * max(np.max(np.abs(one)), 1e-300) if sc.has_fir(cfg) else 0.0
+    for s in segs:
+        s = np.asarray(s, dtype=float)
+        d = np.abs(s - one[:len(s)])
+        if len(s) and not np.all(d <= tol):
+            j = int(np.argmax(~(d <= tol)))
+            return (f'chunked stream differs from a single request at sample {j}: {s[j]!r} vs {one[j]!r} '
+                    f'(history {ops})')
+    return None
 
 
 def oracle(case, res):
     """chunk invariance on the implementation alone: history output == one fresh single request."""
     fs = case['fs']
-    if case['k'] == 'gen':
-        if res and res[0][0] == 'ctor-raise':
-            return None
-        # split the history at resets; each segment must equal a prefix of one fresh one-shot request
-        segs, cur = [], []
-        for o, r in zip(case['ops'], res):
-            if o[0] == 'reset':
-                segs.append(cur)
-                cur = []
-            elif o[0] == 'next':
-                if r[0] == 'raise':
-                    return None     # rise time too long etc.: nothing to compare
-                cur.extend(r[1])
-        segs.append(cur)
-        n = max(len(s) for s in segs)
-        if n == 0:
-            return None
-        one = np.asarray(sc.mk(case['cfg'], fs).next(n), dtype=float)
-        tol = 1e-12 * max(np.max(np.abs(one)), 1e-300) if sc.has_fir(case['cfg']) else 0.0
-        for s in segs:
-            s = np.asarray(s, dtype=float)
-            d = np.abs(s - one[:len(s)])
-            if len(s) and not np.all(d <= tol):
-                j = int(np.argmax(d > tol))
-                return (f'chunked stream differs from a single request at sample {j}: {s[j]!r} vs {one[j]!r} '
-                        f'(history {case["ops"]})')
-        return None
-    from psiaudio import stim
+    k = case['k']
+    if k == 'gen':
+        return _gen_oracle(case['cfg'], fs, case['ops'], res)
+    if k == 'fn':
+        # the one-shot function against its factory twin drawn in one request
+        if res and res[0][0] == 'raise':
+            try:
+                sc.mk(case['cfg'], fs).next(max(sc.eff(case['dur'], fs), 1))
+            except ValueError:
+                return None
+            return 'the function raised ValueError for parameters its factory twin accepts'
+        return _gen_oracle(case['cfg'], fs, _fn_ops(case), res)
+    if k == 'wavseq':
+        one = _wavseq(fs, [sum(case['chunks'])])
+        if res[0] == 'raise' or one[0] == 'raise':
+            # unchanged tree: WavSequenceFactory(fs, path) passes fs as the queue's *seed* (TypeError for a float rate;
+            # for an int rate the queue has no sampling rate and the first draw raises TypeError).  No sample stream
+            # exists, chunked or not, so chunk invariance is vacuous; reported in DESIGN/the audit report.
+            return None if res[0] == one[0] else 'chunked draws and a single request differ in raising TypeError'
+        got = [v for c in res[1] for v in c]
+        return None if got == one[1][0] else 'WavSequenceFactory: chunked stream differs from a single request'
     if res[0] == 'raise':
+        if k == 'samenv':
+            try:
+                _sam_call(case, 0, case['o'] + case['n'])
+            except ZeroDivisionError:
+                return None
+            return 'the fragment raised ZeroDivisionError, the full envelope did not'
         return None
-    o, n = case['o'], case['n']
-    if case['k'] == 'envelope':
-        rise = None if case['rise'] is None else case['rise'] / fs
-        full = stim.envelope(case['window'], fs, case['dur'] / fs, rise, 0, case['start'] / fs, o + n)
-    elif case['k'] == 'samenv':
-        full = stim.sam_envelope(0, o + n, fs, case['depth'], case['fm'], case['delay'], True)
+    if len(res) > 2 and res[2] != res[1]:
+        return f'{k}: the same call returned different values after the caller wrote into the first result'
+    o, n = case['o'], _n_of(case)
+    if o > 10 ** 5:
+        return None if all(v == 0.0 for v in res[1]) or k != 'envelope' else 'non-zero envelope sample far past the end'
+    if k == 'envelope':
+        full = _env_call(dict(case, np=False), 0, o + n)
+    elif k == 'samenv':
+        full = _sam_call(dict(case, np=False), 0, o + n)
     else:
-        full = stim.square_wave(fs, 0, o + n, case['depth'], case['fm'], case['duty'], case['alpha'])
+        full = _sq_call(dict(case, np=False), 0, o + n)
     want = [float(v) for v in full[o:o + n]]
     if res[1] != want:
         j = [a != b for a, b in zip(res[1], want)].index(True) if len(res[1]) == len(want) else -1
-        return f'{case["k"]} fragment [{o},{o + n}) differs from the slice of the full envelope at {j}'
+        return f'{k} fragment [{o},{o + n}) differs from the slice of the full envelope at {j}'
     return None
 
 
 def distribution(cases, results):
     d = {}
     for c in cases:
-        key = c['k'] if c['k'] != 'gen' else 'gen:' + c['cfg']['t']
+        key = c['k'] + (':' + c['cfg']['t'] if 'cfg' in c else '')
         d[key] = d.get(key, 0) + 1
     return d
